@@ -235,6 +235,7 @@ def streams_for(prop, seed, tier, boost=1):
             add('hdec-exhaustive', G('x').hdec_exhaustive())
     elif prop in ('C06', 'C14'):
         add('table', G('table').table_stream(n_tables=12 * k))
+        add('split-ambiguity', genmod.split_ambiguity_stream())
         add('table-big', big_table_stream())
         add('table-long-history', genmod.big_history_table_stream(4300))
         add('enc-failing', genmod.enc_fail_stream(G('ef'), n=15 * k))
@@ -270,6 +271,7 @@ def streams_for(prop, seed, tier, boost=1):
         add('never-indexed-utf8', genmod.never_indexed_utf8_stream())
         add('failed-then-fresh', genmod.failed_then_fresh_stream())
         add('limits-interleaved', genmod.limit_interleaved_stream())
+        add('utf8-tails', genmod.utf8_tail_stream()[0])
     elif prop in ('C04', 'C05'):
         add('deccat', G('deccat').dec_catalogue())
         add('dec-mal', G('dec').dec_stream(n_conn=60 * k, mal=0.55))
@@ -284,6 +286,10 @@ def streams_for(prop, seed, tier, boost=1):
         add('table-big', big_table_stream())
         add('high-index', genmod.high_index_limit_stream())
         add('dec-extra', genmod.dec_extra_catalogue(G('dx')))
+        add('utf8-tails', genmod.utf8_tail_stream()[0])
+        add('never-indexed-utf8', genmod.never_indexed_utf8_stream())
+        add('limits-interleaved', genmod.limit_interleaved_stream())
+        add('failed-then-fresh', genmod.failed_then_fresh_stream())
         add('hdec-in-block', ['dnew 1'] + ['ddec 1 1 ' + genmod.hx(bytes([0x00, 0x80 | (len(o.split()[1]) // 2)]) + bytes.fromhex(o.split()[1]) + b'\x00')
                                           for o in genmod.huff_transition_catalogue() if o.split()[1] != '-' and len(o.split()[1]) // 2 < 127])
         if T:
@@ -307,6 +313,7 @@ def streams_for(prop, seed, tier, boost=1):
         add('enccat', G('enccat').enc_catalogue())
         add('enc', G('enc').enc_stream(n_conn=60 * k))
         add('enc-sizes', genmod.enc_size_stream(G('es'), n=10 * k))
+        add('split-ambiguity', genmod.split_ambiguity_stream())
         add('conn-evict', evict_stream(G('ev'), 12 * k))
         add('enc-big-tables', genmod.big_table_encoder_stream(G('bt')))
         add('api-forms-conn', genmod.api_forms_conn_stream(G('af'), n=15 * k))
@@ -336,6 +343,7 @@ def streams_for(prop, seed, tier, boost=1):
         add('conn', G('conn').conn_stream(n_conn=40 * k))
         add('conn-text', G('conntext').conn_text_stream(n_conn=15 * k))
         add('enc-sizes', genmod.enc_size_stream(G('es'), n=25 * k))
+        add('split-ambiguity', genmod.split_ambiguity_stream())
         add('conn-evict', evict_stream(G('ev'), 12 * k))
         add('api-forms-conn', genmod.api_forms_conn_stream(G('af'), n=20 * k))
         add('enc-big-tables', genmod.big_table_encoder_stream(G('bt')))
